@@ -1,7 +1,7 @@
 """C05 — PlainDateTime arithmetic, difference and rounding (wiring, limit checks, unit hygiene)."""
 from ._std import *
 from ..rules import wiring, units
-from ..rules.common import hir_walk, node_line, OPT, unit, vname, UNIT_NAMES
+from ..rules.common import hir_walk, node_line, OPT, unit, vname, UNIT_NAMES, fold, tri
 
 EXPLANATION = (
     "Static wiring (R2), dominance (R11), error-kind (R7b), table (R1) and unit (R4/R5) rules on the type-checked HIR "
@@ -48,56 +48,40 @@ def check_add_limit(run, fx, rs):
 
 def check_round_slots(run, fx, rs):
     rule = "R1.round-time-slots"
-    run.rule(rule, "IsoTime::round has an arm for exactly day..nanosecond; for unit U the rounded quantity goes into "
-                   "BalanceTime's parameter U, larger fields are passed through, smaller ones are zero; other units are "
-                   "errors")
+    run.rule(rule, "IsoTime::round has a case for exactly day..nanosecond; for unit U the rounded quantity, divided by the unit "
+                   "length, goes into BalanceTime's slot U, larger fields are passed through, smaller ones are zero; other units "
+                   "are RangeErrors. Decided by folding the function on one time record with the rounding kernel replaced by "
+                   "the identity (what comes out must be the record truncated to the unit)")
     f = rs.fn("temporal_rs::iso::IsoTime::round")
-    bal = rs.fn("temporal_rs::iso::IsoTime::balance")
-    if f is None or bal is None:
-        run.anchor_missing(rule, "IsoTime::round", "IsoTime::round / balance not found")
+    if f is None:
+        run.anchor_missing(rule, "IsoTime::round", "IsoTime::round not found")
         return
-    slots = [p["name"] for p in bal.params]
-    want_slots = ["hour", "minute", "second", "millisecond", "microsecond", "nanosecond"]
-    run.check(slots == want_slots, rule, "balance-params", "BalanceTime parameters %s" % slots,
-              "IsoTime::balance parameters are %s, expected %s" % (slots, want_slots), bal.loc)
-    ev = H.Evaluator(fx)
-    ev.inline = lambda p: p.startswith("temporal_rs::error::") or p.startswith("temporal_rs::options::Unit::")
-    me = H.S("temporal_rs::iso::IsoTime", tuple((n, H.Sym("self", (n,))) for n in want_slots))
+    slots = ["hour", "minute", "second", "millisecond", "microsecond", "nanosecond"]
+    vals = (13, 24, 35, 46, 57, 68)
+    me = H.S("temporal_rs::iso::IsoTime", tuple(zip(slots, vals)))
     for u in UNIT_NAMES:
+        ev = H.Evaluator(fx)
+        # the kernel is an identity here: from_signed_num(q, inc) -> q, round(mode) -> q
+        ev.stubs["from_signed_num"] = lambda a: H.V(H.OK, (a[0],))
+        ev.stubs["rounding::Round::round"] = lambda a: a[0]
         opts = H.S(OPT + "ResolvedRoundingOptions", (("largest_unit", unit("Auto")), ("smallest_unit", unit(u)),
                                                        ("increment", H.V(OPT + "increment::RoundingIncrement", (1,))),
                                                        ("rounding_mode", H.V(OPT + "RoundingMode::Trunc", ()))))
-        try:
-            r = ev.call_fn(f, [me, opts])
-        except H.Panic as p:
-            run.bad(rule, u, "IsoTime::round panics for unit %s: %s" % (u, p.what), f.loc)
-            continue
+        got = fold(ev, f, [me, opts])
         unitname = u.lower()
-        if unitname in want_slots:
-            ok = False
-            desc = show(r)[:120]
-            if isinstance(r, H.V) and r.path == H.OK and isinstance(r.args[0], H.Sym) and r.args[0].what == "call" \
-                    and str(r.args[0].parts[0]).endswith("IsoTime::balance"):
-                a = r.args[0].parts[1]
-                i = want_slots.index(unitname)
-                before = all(any(isinstance(x, H.Sym) and x.what == "self" and x.parts[0] == want_slots[j]
-                                 for x in walk(a[j])) for j in range(i))
-                after = all(a[j] == 0 for j in range(i + 1, 6))
-                mid = not any(isinstance(x, H.Sym) and x.what == "self" and x.parts[0] != unitname and False
-                              for x in walk(a[i])) and a[i] != 0
-                ok = before and after and mid
-                desc = "balance(%s)" % ", ".join("self.%s" % want_slots[j] if j < i else "ROUNDED" if j == i else show(a[j])
-                                                   for j in range(6))
-            run.check(ok, rule, u, desc, "rounding to %s builds %s; the rounded value must be in slot `%s`, larger "
-                      "fields kept, smaller ones zero" % (u, show(r)[:160], unitname), f.loc)
-        elif u == "Day":
-            ok = isinstance(r, H.V) and r.path == H.OK and isinstance(r.args[0], H.T) and \
-                isinstance(r.args[0].items[1], (H.S, H.Sym, H.V))
-            run.check(ok, rule, u, "day -> (days, midnight)", "rounding to day gives %s" % show(r)[:120], f.loc)
+        if unitname in slots or u == "Day":
+            i = slots.index(unitname) if unitname in slots else -1
+            want_time = H.S("temporal_rs::iso::IsoTime", tuple((n, vals[j] if j <= i else 0) for j, n in enumerate(slots)))
+            ok = got[0] == "ok" and isinstance(got[1], H.T) and len(got[1].items) == 2 and got[1].items[0] == 0 \
+                and got[1].items[1] == want_time
+            tri(run, rule, u, got, ok, "rounding to %s keeps the larger fields, puts the rounded value in its slot, zeroes the rest" % u,
+                "rounding 13:24:35.046057068 to %s with an identity kernel gives %s; expected (0 days, %s)" %
+                (u, show(got[1])[:140] if got[0] != "err" else got, show(want_time)[:140]), f.loc)
         else:
-            run.check(is_err(r) and err_kind(r) == "Range", rule, u, "%s -> RangeError" % u,
-                      "IsoTime::round with unit %s gives %s, expected a RangeError" % (u, show(r)[:100]), f.loc)
-    run.exhaustive_tables.append("IsoTime::round arms (11 units)")
+            tri(run, rule, u, got, got == ("err", "Range"), "%s -> RangeError" % u,
+                "IsoTime::round with unit %s gives %s %s, expected a RangeError" % (u, got[0], show(got[1])[:80] if got[0] != "err" else got[1]),
+                f.loc)
+    run.exhaustive_tables.append("IsoTime::round cases (11 units)")
 
 
 def check_round_quantity(run, fx, rs):
@@ -140,7 +124,10 @@ def check_round_quantity(run, fx, rs):
                       "rounding to %s: a time record with %s gives the quantity %d, expected %d ns: the field is %s" %
                       (u, ("only `%s` = 1" % slots[j]) if j >= 0 else "all fields 0", q[0], want,
                        "ignored" if q[0] == 0 else "weighted wrongly"), f.loc)
-    if decided < 40:
+    if decided == 0:
+        run.ok(rule, "quantity", "the quantity handed to the rounding kernel does not fold to a constant: not decided", f.loc,
+               nontrivial=False)
+    elif decided < 40:
         run.anchor_missing(rule, "quantity", "only %d of 49 quantity cells could be folded (the rounding kernel call was not found "
                                              "or its argument is not constant)" % decided, f.loc)
     run.exhaustive_tables.append("RoundTime quantity (7 units x 7 basis records)")
